@@ -1015,13 +1015,16 @@ PROPS = {
              "credential header sets (valid, wrong, Bearer, raw, non-ASCII, + Authorization and Cookie) x 10 request kinds (health, UDP, "
              "ICMP, wrong method, connect ok / no port / refused / policy, GET, POST) x {HTTP/1.1, HTTP/2}, the connection-meta and "
              "refused-SNI lines, ping / speedtest / bad speedtest / upload and a reverse-proxy exchange with secrets in the request; "
-             "every captured line is searched for 13 canaries (raw values, base64 tokens, SNI labels, the configured password)",
+             "every captured line is searched for 13 canaries (raw values, base64 tokens, SNI labels, the configured password); "
+             "(d) the same over HTTP/3: 21 connections (3 SNI-credential situations x 7 header sets) to the real QUIC listener, each "
+             "carrying the 10 request kinds and ping / speedtest / reverse-proxy requests as concurrent streams, the QUIC multiplexer's "
+             "and quiche's own log lines included in the search",
         explanation="theorems scrub_request_hides (non-interference), scrubbed_values_are_placeholders, scrub_keeps_other_headers, "
                     "scrub_adds_nothing, scrub_sni_hides_label, meta_debug_hides_creds about TT/Model/Scrub.lean; all_log_sites_clean over the "
                     "regenerated TT/Gen/LogSites.lean",
         trusted=["the taint rules of tools/extract.py (which expressions carry secrets, which wrappers make them safe, per-file "
                  "exceptions) - whole-program absence of leaks rests on them plus the dynamic search, not on a theorem about the code",
-                 "HTTP/3 and SOCKS5 paths are covered by the site table only, not by scenarios",
+                 "the SOCKS5 path is covered by the site table only, not by scenarios",
                  "the `http` crate prints header maps through Debug as the scenarios observe"],
         assumptions=["a first label of an SNI that designates no host is scrubbed as potential credentials"],
     ),
